@@ -7,7 +7,7 @@ import time
 
 import numpy as np
 
-from lib import core, tlc, listing
+from lib import core, tlc, listing, tecnav
 
 GEN = """---- MODULE GEN_ListingNav ----
 EXTENDS ListingNav, Json
@@ -248,6 +248,10 @@ def run(tier):
                     nbeh += 1
             lfull.close()
         rep.traces += nbeh
+        try:
+            tecnav.run(rep, behs, work, 150 if quick else 2000)
+        except Exception as e:          # (beyond the properties: never a verdict, never a failure of this check)
+            print("OBSERVATION beyond-properties (toughreact_tecplot navigation): harness stopped: %r" % (e,))
         rep.extra["behaviours_replayed"] = nbeh
         rep.rule = ("every ListingNav behaviour of length <= %d for N=1..4 (TLC, exhaustive) and TLC-simulated behaviours of "
                     "length 10, replayed on each shipped listing with >= 2 result sets and on truncated copies giving "
